@@ -394,6 +394,22 @@ static void bigkey(void) {
     if (t->size(t, NULL, NULL) != 2) vc_viol("image:bigkey", "two distinct 65535-byte keys counted as %d", t->size(t, NULL, NULL));
     if (!t->remove_by_obj(t, k1, kn) || t->get_by_obj(t, k1, kn, NULL) != NULL) vc_viol("image:bigkey", "remove of a 65535-byte key failed");
     d = t->get_by_obj(t, k2, kn, &sz); if (!d) vc_viol("image:bigkey", "removing one long key removed the other"); free(d);
+    /* beyond the 16-bit length field of a slot: the key can only be refused (nothing stored), never stored under a truncated length */
+    for (size_t big = 65536; big <= 65538; big++) {
+        char *kb = malloc(big); memset(kb, 'c', big); kb[0] = 'a'; kb[1] = 'b'; int n0 = t->size(t, NULL, NULL);
+        errno = 0; bool r = t->put_by_obj(t, kb, big, "LONG", 5); int e = errno; size_t gs = 0; char *g = t->get_by_obj(t, kb, big, &gs);
+        if (r && (!g || gs != 5)) vc_viol("image:bigkey", "put_by_obj with a %zu-byte key returned true but the key is not found afterwards", big);
+        if (!r && (e != EINVAL || t->size(t, NULL, NULL) != n0)) vc_viol("image:bigkey", "put_by_obj with a %zu-byte key refused with errno %d, size %d -> %d", big, e, n0, t->size(t, NULL, NULL));
+        free(g);
+        g = t->get_by_obj(t, "ab", 2, NULL); if (g) vc_viol("image:get-absent", "after the put of a %zu-byte key the never stored key \"ab\" is found", big); free(g);
+        if (r) t->remove_by_obj(t, kb, big);
+        free(kb);
+    }
+    { char *ks = malloc(65536); memset(ks, 's', 65535); ks[65535] = 0; int n0 = t->size(t, NULL, NULL);   /* a C string of 65535 characters is 65536 bytes with its terminator */
+      bool r = t->putstr(t, ks, "v"); char *g = t->getstr(t, ks);
+      if (r && !g) vc_viol("image:bigkey", "putstr with a 65535-character key returned true but the key is not found afterwards");
+      if (!r && t->size(t, NULL, NULL) != n0) vc_viol("image:bigkey", "refused putstr with a 65535-character key changed the size");
+      free(g); if (r) t->remove(t, ks); free(ks); }
     t->free(t); free(blk); free(k1); free(k2);
     if (vc_asan_check()) vc_viol("asan:bigkey", "sanitizer report with 65535-byte keys");
     vc_stat_add("transitions", 6); vc_stat_add("states", 3);
